@@ -65,4 +65,29 @@ theorem exS2_facts : exS2.relog = [(Addr.sh 1 0, Addr.sh 2 0)] ∧
     exS2.mem.get? (.sh 2 0) = some ⟨some (.sh 2 0), 131040, 131040, none⟩ := by
   simp [exS2, KMap.get?_set, KMap.get?_del]
 
+/-! ### non-trivial states for the non-vacuity examples of node_writes_clobbered / rep_step / counters_step -/
+
+theorem exS1_run : run (init : State Nat) [.malloc 131040] = .ok exS1 := by
+  simp [run, foldE, step, exS1_malloc]
+
+/-- in `exS1` (one page of class 49, one live record) allocSlot succeeds (bump path) -/
+theorem exS1_allocSlot : ∃ r, allocSlot exS1 49 = .ok r := by
+  simp [allocSlot, exS1, State.K, KMap.get?_set, c49]
+
+/-- in `exS1` beginEvac of page 1 succeeds -/
+theorem exS1_beginEvac : ∃ s', beginEvac exS1 49 1 = .ok s' := by
+  simp [beginEvac, exS1, State.K, KMap.get?_set]
+
+/-- A reachable state in which a freeSlot really changes ANOTHER slot's node: after Malloc, Malloc, Free(1,0)
+the global list of class 49 is [(1,0)]; freeing (1,1) pushes it in front and writes `(1,0).prev = (1,1)`
+(the back-link `next.prev = p` of uintptrFreeShared). -/
+theorem exFree_changes_node : ∃ (s : State Nat) (h : Page),
+    run init [.malloc 131040, .malloc 131040, .free (.sh 1 0)] = .ok s ∧ s.pages.get? 1 = some h ∧
+    (freeSlot s 1 1 h).heap.N (1, 0) ≠ s.heap.N (1, 0) := by
+  have g1 : lnkPushGlobalBack = true := by decide
+  have g2 : lnkPushPageBack = true := by decide
+  simp [run, foldE, step, exS1_malloc]
+  simp [malloc, free, c49, allocLive, allocSlot, freeSlot, exS1, State.K, KMap.get?_set, sliceHdrLen,
+    hPush, hLinkPage, Heap.setN, Heap.setH, Heap.setC, Heap.N, Heap.H, Heap.C, onSome, g1, g2]
+
 end GocoinV.Alloc
